@@ -53,6 +53,35 @@ pub enum BodyJob {
     Reader(ByteBuf),
     /// `Body::from_reader(.., Some(len))`
     SizedReader(ByteBuf),
+    /// `body_json(&TypedBody { .. })`: a typed value whose fields are not in alphabetical order
+    /// and which has an `f32` (bits given, to keep `Eq`)
+    Typed { zeta: u32, alpha: String, mid_bits: u32, beta: bool },
+}
+
+/// what an app would pass to `body_json`: declaration order is not alphabetical
+#[derive(Serialize, Deserialize, Clone, Debug, PartialEq)]
+pub struct TypedBody {
+    pub zeta: u32,
+    pub alpha: String,
+    pub mid: f32,
+    pub beta: bool,
+}
+
+impl BodyJob {
+    pub fn typed(&self) -> Option<TypedBody> {
+        match self {
+            BodyJob::Typed { zeta, alpha, mid_bits, beta } => {
+                let mid = f32::from_bits(*mid_bits);
+                Some(TypedBody {
+                    zeta: *zeta,
+                    alpha: alpha.clone(),
+                    mid: if mid.is_finite() { mid } else { 21.1 },
+                    beta: *beta,
+                })
+            }
+            _ => None,
+        }
+    }
 }
 
 #[derive(Serialize, Deserialize, Clone, Debug, PartialEq, Eq)]
@@ -466,7 +495,27 @@ fn kv_legacy(job: KvJob, caps: &d::Capabilities) {
 }
 
 fn method_of(m: &str) -> Method {
-    m.parse::<Method>().expect("method known to http-types")
+    m.trim_end_matches('!').parse::<Method>().expect("method known to http-types")
+}
+
+/// `METHOD!` in a job means: use the API's named constructor (`get`, `post`, ...) instead of the
+/// generic `request(method, url)`
+macro_rules! start_request {
+    ($api:expr, $method:expr, $url:expr) => {{
+        let named = $method.ends_with('!');
+        match ($method.trim_end_matches('!'), named) {
+            ("GET", true) => $api.get($url),
+            ("HEAD", true) => $api.head($url),
+            ("POST", true) => $api.post($url),
+            ("PUT", true) => $api.put($url),
+            ("DELETE", true) => $api.delete($url),
+            ("CONNECT", true) => $api.connect($url),
+            ("OPTIONS", true) => $api.options($url),
+            ("TRACE", true) => $api.trace($url),
+            ("PATCH", true) => $api.patch($url),
+            (m, _) => $api.request(method_of(m), $url),
+        }
+    }};
 }
 
 /// A reader that yields the given bytes; `Body::from_reader` needs AsyncBufRead
@@ -579,6 +628,7 @@ macro_rules! configure {
                 b.body_json(&v).expect("json body")
             }
             BodyJob::Form(pairs) => b.body_form(&pairs_to_vec(pairs)).expect("form body"),
+            BodyJob::Typed { .. } => b.body_json(&job.body.typed().unwrap()).expect("json body"),
             BodyJob::Reader(x) => b.body(reader_body(x.0.clone(), false)),
             BodyJob::SizedReader(x) => b.body(reader_body(x.0.clone(), true)),
         };
@@ -598,7 +648,22 @@ macro_rules! configure {
 fn http_command<Ef: CapEffect>(job: HttpJob) -> Command<Ef, Event> {
     use crux_http::command::Http;
     let url: Url = job.url.parse().expect("absolute url");
-    let b = Http::<Ef, Event>::request(method_of(&job.method), url);
+    struct CommandApi<Ef>(std::marker::PhantomData<Ef>);
+    #[allow(dead_code)]
+    impl<Ef: CapEffect> CommandApi<Ef> {
+        fn get(&self, u: Url) -> crux_http::command::RequestBuilder<Ef, Event> { Http::<Ef, Event>::get(u) }
+        fn head(&self, u: Url) -> crux_http::command::RequestBuilder<Ef, Event> { Http::<Ef, Event>::head(u) }
+        fn post(&self, u: Url) -> crux_http::command::RequestBuilder<Ef, Event> { Http::<Ef, Event>::post(u) }
+        fn put(&self, u: Url) -> crux_http::command::RequestBuilder<Ef, Event> { Http::<Ef, Event>::put(u) }
+        fn delete(&self, u: Url) -> crux_http::command::RequestBuilder<Ef, Event> { Http::<Ef, Event>::delete(u) }
+        fn connect(&self, u: Url) -> crux_http::command::RequestBuilder<Ef, Event> { Http::<Ef, Event>::connect(u) }
+        fn options(&self, u: Url) -> crux_http::command::RequestBuilder<Ef, Event> { Http::<Ef, Event>::options(u) }
+        fn trace(&self, u: Url) -> crux_http::command::RequestBuilder<Ef, Event> { Http::<Ef, Event>::trace(u) }
+        fn patch(&self, u: Url) -> crux_http::command::RequestBuilder<Ef, Event> { Http::<Ef, Event>::patch(u) }
+        fn request(&self, m: Method, u: Url) -> crux_http::command::RequestBuilder<Ef, Event> { Http::<Ef, Event>::request(m, u) }
+    }
+    let api = CommandApi::<Ef>(std::marker::PhantomData);
+    let b = start_request!(api, job.method.as_str(), url);
     let b = configure!(b, &job);
     let id = job.id;
     match job.expect {
@@ -617,7 +682,7 @@ fn http_legacy(job: HttpJob, caps: &d::Capabilities) {
     for m in &job.client_mw {
         http = mw::attach_client(http, m, job.id);
     }
-    let b = http.request(method_of(&job.method), url);
+    let b = start_request!(http, job.method.as_str(), url);
     let b = configure!(b, &job);
     let id = job.id;
     if job.send_async {
